@@ -43,6 +43,29 @@ pub fn everything_digest(c: &Case) -> [u64; 6] {
     if c.dim == 3 {
         // the with-faces integrator: vertices and face polygons in order
         let vf = vi.clone().with_faces();
+        // one slot per generator, in order (a lost or moved slot panics or changes the digest)
+        let slots = std::panic::catch_unwind(std::panic::AssertUnwindSafe(|| (0..c.n()).map(|i| vf.get_cell_at(i).map(|x| x.idx)).collect::<Vec<_>>()));
+        match slots {
+            Ok(v) => {
+                for x in v {
+                    d_data.opt_usize(x);
+                }
+            }
+            Err(_) => d_data.byte(0xEE),
+        }
+        match std::panic::catch_unwind(std::panic::AssertUnwindSafe(|| digest_voronoi(&Voronoi::from(&vf)).0)) {
+            Ok(x) => d_data.usize(x as usize),
+            Err(_) => d_data.byte(0xEF),
+        }
+        for x in vf.compute_cell_integrals::<VolumeCentroidIntegral>() {
+            d_data.f64(x.volume);
+            d_data.v3(x.centroid);
+        }
+        for f in vf.compute_face_integrals::<AreaIntegral>() {
+            d_data.usize(f.left());
+            d_data.opt_usize(f.right());
+            d_data.f64(f.integral().area);
+        }
         for cell in vf.cells_iter() {
             d_data.usize(cell.idx);
             for f in 0..cell.face_count() {
